@@ -165,7 +165,24 @@ def run_main(argv, trigger=None, stdin=None, close_stdin_at_end=True, keep_input
     os._exit = _exit
     builtins.input = st
     sys.argv = ['pcfg_guesser.py'] + list(argv)
-    err, out = io.StringIO(), io.StringIO()
+    # real text streams over byte buffers (encoding, errors, .buffer, reconfigure() ... as a process has them): a tool that re-wraps or re-configures its
+    # standard streams keeps writing into the same byte buffers
+    class _KeepOpen(io.BytesIO):
+        def close(self):
+            pass                        # survives the garbage collection of a wrapper the tool put around it
+    class _Cap(io.TextIOWrapper):
+        def __init__(self):
+            self._bytes = _KeepOpen()
+            super().__init__(self._bytes, encoding='utf-8', errors='strict', newline='\n', write_through=True)
+        def getvalue(self):
+            try:
+                self.flush()
+            except Exception:
+                pass
+            return self._bytes.getvalue().decode('utf-8', 'replace')
+        def close(self):
+            pass                        # a wrapper the tool drops must not close the capture
+    err, out = _Cap(), _Cap()
     try:
         with contextlib.redirect_stderr(err), contextlib.redirect_stdout(out):
             try:
